@@ -88,6 +88,9 @@ type Interp struct {
 func (it *Interp) stackTrace() []string {
 	var out []string
 	for fr := it.curFrame; fr != nil && len(out) < 12; fr = fr.caller {
+		if fr.fn == nil {
+			continue // synthetic root frame of a goroutine
+		}
 		pos := ""
 		if fr.curInstr != nil && fr.curInstr.Pos().IsValid() {
 			p := it.prog.Fset.Position(fr.curInstr.Pos())
